@@ -229,6 +229,69 @@ def fault_case(case):
     return r
 
 
+def tolfail_case(case):
+    """'... or tolerances cannot be met': finite-time blow-up y' = +-y^2 (singular one unit after the start).  The call must raise the integration
+    failure carrying FailedToMeetTolerances, report it, keep a consistent prefix (dense output included) and reset() must restore a pristine system."""
+    de, I = lc._imports()
+    r = Res()
+    name = case["method"]
+    t0, tf = case["span"]
+    d = 1.0 if tf > t0 else -1.0
+    dtype = np.float64
+
+    def f(t, y, **kw):
+        return d * y * y
+    y0 = np.array([1.0], dtype=dtype)
+
+    def mk():
+        a = de.OdeSystem(f, y0=y0.copy(), t=(dtype(t0), dtype(tf)), dt=dtype(0.1), rtol=dtype(case["tol"]), atol=dtype(case["tol"]), dense_output=bool(case["dense"]))
+        a.method = method_of(name)
+        return a
+    a = mk()
+    exc = None
+    try:
+        a.integrate(callback=driver.Budget(6000))
+    except de.exception_types.FailedIntegration as e:
+        exc = e
+    r.n = 1
+    key = lambda clause: "C12/%s/%s/tolerances" % (clause, name)
+    if exc is None or driver.budget_hit(exc):
+        r.add("no_giveup_within_budget"); r.out(("tolfail", name, "no give-up"))
+        return r
+    if not isinstance(exc.__cause__, de.exception_types.FailedToMeetTolerances):
+        r.v(key("exception"), "unmet tolerances raise the integration failure carrying the original cause", case, observed=repr(exc.__cause__)[:200], expected="FailedToMeetTolerances")
+        return r
+    if not status_ok(a, "Boom"):
+        r.v(key("status"), "the status reports the failure", case, observed=dict(status=a.integration_status[:160], success=bool(a.success)), expected="failure status, success False")
+    ok = driver.segment_invariants(r, "C12/prefix/%s/tolerances" % name, case, a.t, a.y, 0, len(a) - 1, float(a.t[-1]), dtype(t0), y0, dtype)
+    if ok and case["dense"]:
+        driver.dense_invariants(r, "C12/dense-after-fault/%s/tolerances" % name, case, a, f, dtype)
+    n_first = len(a)
+    t_first = np.array(a.t); y_first = np.array(a.y)
+    # calling integrate again cannot succeed either, but must not corrupt the prefix
+    try:
+        a.integrate(callback=driver.Budget(6000))
+    except de.exception_types.FailedIntegration:
+        pass
+    if len(a) < n_first or not (np.array_equal(a.t[:n_first], t_first) and np.array_equal(a.y[:n_first], y_first)):
+        r.v(key("prefix-after-second-call"), "a second failing call keeps the accepted prefix", case, observed=dict(rows=[n_first, len(a)]), expected="prefix unchanged")
+    elif case["dense"]:
+        driver.dense_invariants(r, "C12/dense-after-second-fault/%s/tolerances" % name, case, a, f, dtype)
+    a.reset()
+    if len(a) != 1 or len(a.events) != 0 or a.nfev != 0 or a.integration_status != "Integration has not been run." or (a.sol is not None and len(a.sol.y_interpolants) != 0):
+        r.v(key("reset"), "reset() restores a pristine system after a failure", case, observed=dict(rows=len(a), status=a.integration_status[:60]), expected="pristine")
+    else:
+        try:
+            a.integrate(callback=driver.Budget(6000))
+        except de.exception_types.FailedIntegration:
+            pass
+        if not (len(a) == n_first and np.array_equal(a.t, t_first) and np.array_equal(a.y, y_first)):
+            r.v(key("reset-rerun"), "after reset the run is reproduced bit for bit", case, observed=dict(rows=[n_first, len(a)]), expected="identical")
+    r.out(("tolfail", name, int(d), case["dense"], min(n_first, 9)))
+    r.samples.append(dict(section="tolerances", case=case, rows=n_first, t_last=float(t_first[-1])))
+    return r
+
+
 def configs(ctx):
     out = []
     base = [("RK4Solver", 0.7, 1e-6, None), ("DOPRI45", 0.7, 1e-4, None), ("RK45CKSolver", 3.0, 1e-4, None), ("ABAs5o6HSolver", 0.7, 1e-6, None),
@@ -249,7 +312,7 @@ def configs(ctx):
 def run(ctx):
     ctx.rule = ("E2 crash-point enumeration: for each configuration (8 method set-ups x 2 directions x dense on/off x with/without events+callbacks) a fault-free run numbers "
                 "every call of the user's rhs, Jacobian, event functions and callbacks; then one execution per site and per exception kind (Exception subclass, KeyboardInterrupt) "
-                "with exactly that call raising%s; after the fault: exception type and cause, status, bit-exact prefix, dense output, then resume and reset; "
+                "with exactly that call raising%s; after the fault: exception type and cause, status, bit-exact prefix, dense output, then resume and reset; plus 'tolerances cannot be met' cells (finite-time blow-up: FailedToMeetTolerances, prefix, second call, reset); "
                 "distinct = distinct (method, site kind, exception kind, dense, events, step index of the fault) classes" % ("" if ctx.quick else "; plus all pairs (k1 in the run, k2 in the resumed run) on a sub-lattice of sites"))
     ctx.assumptions += ["a site is the k-th call of a user function since construction of the system (deterministic: verified by the site-not-reached clause)",
                         "resumed fixed-step explicit/splitting runs must be bit-identical to the fault-free run; others within 500*tol at the final time"]
@@ -278,9 +341,15 @@ def run(ctx):
             cases.append(dict(cfg=cfg, plans=plans[i:i + 40]))
     ctx.note("sites", configurations=len(cfgs), user_function_calls_numbered=tot_sites)
     grid.pmap(fault_case, cases, ctx, horizon=900, chunksize=1)
+    tcases = [dict(method=m, span=sp, tol=tol, dense=dn) for m in ("RK45CKSolver", "DOPRI45", "RK8713MSolver", "RadauIIA5", "LobattoIIIC4", "RICH:RK4Solver:3")
+              for sp in ([0.0, 2.0], [0.0, -2.0], [-3.0, -1.0], [3.0, 1.0]) for tol in (1e-6, 1e-9) for dn in (True, False)
+              if not (ctx.quick and m in ("RadauIIA5", "LobattoIIIC4", "RICH:RK4Solver:3") and (tol < 1e-6 or not dn or m == "LobattoIIIC4"))]
+    grid.pmap(tolfail_case, tcases, ctx, section="tolerances", horizon=900, chunksize=1)
 
 
 def replay(case):
+    if "cfg" not in case:
+        return tolfail_case(case)
     cfg = case["cfg"]
     plan = (case["site"], case["k"], case["kind"])
     return fault_case(dict(cfg=cfg, plans=[plan]))
